@@ -272,6 +272,6 @@ func scopesC04(thorough bool) []Scope {
 }
 
 func init() {
-	register(&Prop{ID: "C04", Scopes: scopesC04, Judge: judgeC04,
+	register(&Prop{ID: "C04", PinnedFrom: []string{"C01"}, Scopes: scopesC04, Judge: judgeC04,
 		Rule: "all valid lattice polygons of the scopes x id sets x keep modes; (a) output vertices are centres of pixels holding an input vertex, (b) every output edge lies in the union of input edges thickened by half a pixel (exact clipping against the convex hexagons), (c) at every quarter-pixel location of the bounding box + 2 pixels farther than one pixel (Chebyshev) from the input boundary: inside(input) == inside(union of returned polygons), exact winding numbers; non-trivial input = routing inserts a vertex or a centre is visited twice"})
 }
